@@ -132,11 +132,17 @@ def main():
         env = extract_lib()
         changed = write_if_changed(os.path.join(OUT, "Consts.lean"), lean_consts(env))
         extra = {}
-        try:
-            import extract_more
-            extra = extract_more.run(REPO, OUT, write_if_changed)
-        except ImportError:
-            pass
+        for modname in ("extract_more", "extract_str"):
+            try:
+                mod = __import__(modname)
+            except ImportError:
+                continue
+            try:
+                extra.update(mod.run(REPO, OUT, write_if_changed) or {})
+            except ExtractError:
+                raise
+            except Exception as e:  # family translators signal unreadable items with their own error types
+                raise ExtractError(f"{modname}: {e}")
         print(json.dumps({"ok": True, "consts": env, "changed": changed, **extra}))
     except ExtractError as e:
         print(json.dumps({"ok": False, "error": str(e)}))
